@@ -1180,10 +1180,16 @@ def c01(run):
         if not rn.violated:
             raise Infra("negative model Chain_%s holds" % n)
         run.notes.append("negative model %s: TLC finds an attack (%s violated)" % (n, rn.violated))
+    allcases = list(r.cases)
+    if run.tier == "thorough":
+        # longer honest histories (<=4 operations) and 3-slot attacker tokens, reached by random walks
+        rs = core.tlc(run.work, "Chain", "Chain_sim", workers=8, simulate=400, depth=14, seed=run.seed, timeout=1200)
+        run.add_tlc(rs, "L1 Unforgeability on simulated behaviours (<=4 honest operations, 3-slot attacker tokens) + export")
+        allcases += rs.cases
     import random
     rnd = random.Random(run.seed)
-    acc = [c for c in r.cases if c["accept"]]
-    rej = [c for c in r.cases if not c["accept"]]
+    acc = [c for c in allcases if c["accept"]]
+    rej = [c for c in allcases if not c["accept"]]
     rnd.shuffle(rej)
     cases = acc + rej[:30000 if run.tier == "quick" else 600000]
     for i, c in enumerate(cases):
